@@ -164,12 +164,12 @@ CLAIMED = {
   ref='6/C19', technique='Lean 4 proof (inductive invariant of the pool transition system over all interleavings; BlockingDeque invariant) + trace-replay correspondence vs real RelayPool/SmtpRelayClient/HttpRelayClient',
   note='Partial: termination assumes finitely many idle-timer and connection-fault events; per-connection protocol discipline is monitored, not proved.'),
  'C12': dict(
-  text='PARTIAL (stage 1 of the queue model: storage calls atomic inside a section, pool spawns do not block — bounded pools are tied by the '
+  text='PARTIAL (storage calls are atomic inside a section except inside _retry_later, which is modelled in two steps around its yielding storage calls; pool spawns do not block — bounded pools are tied by the '
        'correspondence with a lenient scheduler label and by the monitors only; environment assumption Calm: the storage does not announce a '
        'message while enqueue() is between the write and the hand-off of that message or while a _dequeue task for it is pending — without it '
        'the property is false of model and code: theorem never_early_needs_calm, known finding). Lean theorems over Model/Sched.lean for every '
        'interleaving of {enqueue write / hand-off, announce (load, wait), tick, scheduler turn (asked for or spurious), _dequeue, relay outcome, '
-       '_retry_later with any backoff answer incl. 0 and None, _remove_stored, flush}: one inductive invariant (16 clauses: id sets = ids of the '
+       '_retry_later in two steps (due time stored / message released) with any backoff answer incl. 0 and None, stale announcements of known messages, _remove_stored, flush}: one inductive invariant (16 clauses: id sets = ids of the '
        'timetable, entries carry the stored timestamp, active ids have neither entry nor task, timetable sorted, scheduler timer at or before '
        'every entry unless flagged, ...) gives never_early (no hand-off that no flush asked for before the stored due time), due_is_dispatched '
        '(a due entry enables the scheduler turn, which creates its _dequeue task), never_forgotten (every known stored message is being handed '
